@@ -58,6 +58,45 @@ def foreignAt (bigs : List Coin) (ops : List Op) (k : Nat) : Bool :=
   | .ok (_, _, s3) => s3.foreign
   | .error _ => false
 
+/-- the state after crash point k, restart, recovery loop and feeding every block — computed WITHOUT stopping at a panic, so that
+    its ghost flag is meaningful in every case -/
+def crashS3 (bigs : List Coin) (ops : List Op) (k : Nat) : St :=
+  match openNode (applyAll {} ((run bigs ops).es.take k)) bigs 0 with
+  | .ok s1 => feedAll { clientRecover s1 with es := [] } (submitted ops)
+  | .error _ => { n := {}, d := {} }
+
+/-- ghost: did the restart after crash point k (recovery loop or feeding the blocks) read an undo file of another block? -/
+def crashForeign (bigs : List Coin) (ops : List Op) (k : Nat) : Bool := (crashS3 bigs ops k).foreign
+
+/-! ### a snapshot file that cannot be read to its end (power loss, full disk — NOT a process kill)
+
+NewUnspentDb gives up on a UTXO.db whose header or record area is short and goes on with UTXO.old, then with the empty set,
+exactly as if the file were absent (since fix eab07278 also when the header is intact: the map-filler goroutine of the failed
+attempt is stopped before the retry).  `tearDb d db old` is the directory `d` as such a restart sees it. -/
+def tearDb (d : Disk) (db old : Bool) : Disk :=
+  { d with db := if db then none else d.db, old := if old then none else d.old }
+
+/-- the three stages of a restart (NewChainExt, client's recovery loop, feeding every block of the workload) from ANY directory;
+    `crashAt bigs ops k` is `restartFrom` the directory left by the first k effects (`crashAt_eq_restartFrom`) -/
+def restartFrom (d : Disk) (bigs : List Coin) (ops : List Op) : Except String (St × St × St) :=
+  match openNode d bigs 0 with
+  | .error e => .error e
+  | .ok s1 =>
+    let s2 := clientRecover s1
+    match s2.err with
+    | some e => .error e
+    | none =>
+      let s3 := feedAll { s2 with es := [] } (submitted ops)
+      match s3.err with
+      | some e => .error e
+      | none => .ok (s1, s2, s3)
+
+/-- ghost flag of `restartFrom`, computed without stopping at a panic -/
+def restartForeign (d : Disk) (bigs : List Coin) (ops : List Op) : Bool :=
+  match openNode d bigs 0 with
+  | .ok s1 => (feedAll { clientRecover s1 with es := [] } (submitted ops)).foreign
+  | .error _ => false
+
 /-! ### the multi-step updates as stand-alone effect lists -/
 def undoWriteEffects (u : UndoFile) (h : Nat) : List LEffect :=
   [(.writeUndoTmp u, .undoTmpWritten), (.renameUndoTmp h, .undoRenamed)]
